@@ -1,7 +1,242 @@
-(** Properties/C05.v — equality, ordering and hashing agree with physical value. (under construction) *)
+(** Properties/C05.v — equality, ordering and hashing agree with physical value.
+    Statements only; proofs in Proofs/QCompareProofs.v.  The theorems hold for EVERY registry [r]
+    satisfying the stated decidable side conditions, and for the switch values [qk] named.
+
+    Vocabulary (Model/QCompare.v, Proofs/QCompareProofs.v).
+    [q_eq qk r a o], [q_compare r a o], [q_hash qk r a]: branch-for-branch models of
+    [PlainQuantity.__eq__], [compare], [__hash__]; [qk = as_coded] is the unchanged tree,
+    [repaired] the behaviour after the two proposed patches.
+    [phys r q = Some (d, v)]: dimensionality and magnitude in root units — [x·f] for a
+    multiplicative unit, [(s·x + o)·f] for a single offset unit; [phys_eq] is equality of these.
+    [mult_unit r u d f]: [u] is a canonical multiplicative container of dimensionality [d] whose
+    expansion to root units is exact with factor [f]; [offs_unit r u d s o f]: a single offset
+    unit [x ↦ s·x + o] onto a multiplicative reference; [opnd] = either; [rooted r u d s o f B]:
+    moreover [B] is the root container of [u] and is its own root.  All are decidable
+    ([mult_unitb], [offs_unitb], [root_unitb]) and checked below on the regenerated registry. *)
 From PintV Require Import Model.UC Model.Eval Model.Registry Model.QCompare.
+From PintV Require Import Proofs.UCProofs Proofs.RegistryProofs Proofs.RootProofs Proofs.FactorProofs Proofs.QCompareProofs.
 From PintV Require Import Gen.DefaultDefs Gen.DefaultReg.
 Open Scope string_scope.
+Ltac conj := repeat match goal with |- _ ∧ _ => split end.
+
+(** ** == is physical equality on multiplicative units, hence an equivalence there *)
+Theorem C05_eq_spec_mult qk r ma mb ua ub da db fa fb :
+  reg_nz r → mult_unit r ua da fa → mult_unit r ub db fb →
+  ∃ bb, q_eq qk r (Qty ma ua) (OQty (Qty mb ub)) = Ok bb ∧ (bb = true ↔ phys_eq r (Qty ma ua) (Qty mb ub)).
+Proof. exact (eq_spec_mult qk r ma mb ua ub da db fa fb). Qed.
+Theorem C05_eq_reflexive_mult qk r x u d f :
+  reg_nz r → mult_unit r u d f → q_eq qk r (Qty (Fin x) u) (OQty (Qty (Fin x) u)) = Ok true.
+Proof. exact (eq_refl_mult qk r x u d f). Qed.
+Theorem C05_eq_symmetric_mult qk r ma mb ua ub da db fa fb :
+  reg_nz r → mult_unit r ua da fa → mult_unit r ub db fb →
+  q_eq qk r (Qty ma ua) (OQty (Qty mb ub)) = q_eq qk r (Qty mb ub) (OQty (Qty ma ua)).
+Proof. exact (eq_sym_mult qk r ma mb ua ub da db fa fb). Qed.
+Theorem C05_eq_transitive_mult qk r ma mb mc ua ub uc' da db dc fa fb fc :
+  reg_nz r → mult_unit r ua da fa → mult_unit r ub db fb → mult_unit r uc' dc fc →
+  q_eq qk r (Qty ma ua) (OQty (Qty mb ub)) = Ok true →
+  q_eq qk r (Qty mb ub) (OQty (Qty mc uc')) = Ok true →
+  q_eq qk r (Qty ma ua) (OQty (Qty mc uc')) = Ok true.
+Proof. exact (eq_trans_mult qk r ma mb mc ua ub uc' da db dc fa fb fc). Qed.
+
+(** ** all units.  Full statement (what the property asks):
+      [∀ a b, opnd a → opnd b → (q_eq as_coded r a b = Ok true ↔ phys_eq r a b)].
+    The faithful model violates it in two regions; outside them it holds. *)
+(** F1 — the both-zero shortcut: 0 degC == 0 K is True … *)
+Theorem C05_eq_spec_refuted :
+  ∃ a b, q_eq as_coded default_reg a (OQty b) = Ok true ∧ ¬ phys_eq default_reg a b
+         ∧ both_zero_offset default_reg a b = true.
+Proof.
+  exists (Qn 0 1 "degree_Celsius"), (Qn 0 1 "kelvin").
+  split; [vm_compute; reflexivity|]. split; [|vm_compute; reflexivity].
+  rewrite <- phys_eqb_spec. vm_compute. discriminate.
+Qed.
+(** … and so is 0 degC == 273.15 K: equality is not transitive *)
+Theorem C05_eq_transitive_refuted :
+  ∃ a b c, q_eq as_coded default_reg a (OQty b) = Ok true ∧ q_eq as_coded default_reg b (OQty c) = Ok true
+           ∧ q_eq as_coded default_reg a (OQty c) = Ok false.
+Proof.
+  exists (Qn 27315 100 "kelvin"), (Qn 0 1 "degree_Celsius"), (Qn 0 1 "kelvin").
+  conj; vm_compute; reflexivity.
+Qed.
+(** F85 — an offset unit against a delta_ unit: == refuses the conversion although both sides
+    are the same number of kelvin; not transitive through kelvin, and none of <, ==, > holds *)
+Theorem C05_eq_delta_offset_refuted :
+  ∃ a b c, q_eq as_coded default_reg a (OQty b) = Ok true ∧ q_eq as_coded default_reg b (OQty c) = Ok true
+           ∧ q_eq as_coded default_reg a (OQty c) = Ok false ∧ phys_eq default_reg a c
+           ∧ q_compare default_reg a (OQty c) = Ok OEq
+           ∧ delta_offset_clash default_reg (q_u a) (q_u c) = true
+           ∧ q_eq repaired default_reg a (OQty c) = Ok false.
+Proof.
+  exists (Qn 1 1 "delta_degree_Celsius"), (Qn 1 1 "kelvin"), (Qn (-27215) 100 "degree_Celsius").
+  conj; try (vm_compute; reflexivity). rewrite <- phys_eqb_spec. vm_compute. reflexivity.
+Qed.
+(** outside the two regions == is physical equality, for multiplicative and offset units alike *)
+Theorem C05_eq_spec_guarded r ma mb ua ub da db sa oa fa sb ob fb :
+  reg_nz r → opnd r ua da sa oa fa → opnd r ub db sb ob fb →
+  both_zero_offset r (Qty ma ua) (Qty mb ub) = false →
+  delta_offset_clash r ua ub = false →
+  ∃ bb, q_eq as_coded r (Qty ma ua) (OQty (Qty mb ub)) = Ok bb ∧ (bb = true ↔ phys_eq r (Qty ma ua) (Qty mb ub)).
+Proof. intros Hnz Ha Hb Hz. apply (q_eq_opnd as_coded r ma mb ua ub da db sa oa fa sb ob fb Hnz Ha Hb). intros _. exact Hz. Qed.
+(** with the both-zero shortcut restricted to multiplicative units (proposed patch) the first
+    guard disappears *)
+Theorem C05_eq_spec_repaired qk r ma mb ua ub da db sa oa fa sb ob fb :
+  zero_shortcut_any_unit qk = false →
+  reg_nz r → opnd r ua da sa oa fa → opnd r ub db sb ob fb → delta_offset_clash r ua ub = false →
+  ∃ bb, q_eq qk r (Qty ma ua) (OQty (Qty mb ub)) = Ok bb ∧ (bb = true ↔ phys_eq r (Qty ma ua) (Qty mb ub)).
+Proof.
+  intros Hq Hnz Ha Hb. apply (q_eq_opnd qk r ma mb ua ub da db sa oa fa sb ob fb Hnz Ha Hb).
+  rewrite Hq. discriminate.
+Qed.
+Theorem C05_eq_transitive_guarded qk r ma mb mc ua ub uc' da db dc sa oa fa sb ob fb sc oc fc :
+  reg_nz r → opnd r ua da sa oa fa → opnd r ub db sb ob fb → opnd r uc' dc sc oc fc →
+  (zero_shortcut_any_unit qk = true →
+     both_zero_offset r (Qty ma ua) (Qty mb ub) = false ∧ both_zero_offset r (Qty mb ub) (Qty mc uc') = false
+     ∧ both_zero_offset r (Qty ma ua) (Qty mc uc') = false) →
+  delta_offset_clash r ua ub = false → delta_offset_clash r ub uc' = false → delta_offset_clash r ua uc' = false →
+  q_eq qk r (Qty ma ua) (OQty (Qty mb ub)) = Ok true →
+  q_eq qk r (Qty mb ub) (OQty (Qty mc uc')) = Ok true →
+  q_eq qk r (Qty ma ua) (OQty (Qty mc uc')) = Ok true.
+Proof. exact (eq_trans_opnd qk r ma mb mc ua ub uc' da db dc sa oa fa sb ob fb sc oc fc). Qed.
+(** the conversion [==] applies: degX → degY is [x ↦ ((s_X·x + o_X)·f_X/f_Y − o_Y)/s_Y] *)
+Theorem C05_conversion_affine r m ua ub d sa oa fa sb ob fb :
+  reg_nz r → opnd r ua d sa oa fa → opnd r ub d sb ob fb → delta_offset_clash r ua ub = false →
+  convert r m ua ub = Ok (mag_map (λ x, ((x * sa + oa) * fa / fb - ob) / sb)%Qc m).
+Proof. exact (convert_opnd r m ua ub d sa oa fa sb ob fb). Qed.
+
+(** ** hashing.  Full statement: [q_eq as_coded r a b = Ok true → q_hash as_coded r a = q_hash as_coded r b]. *)
+(** F2 — 1 hertz == 1 becquerel, but the root-unit containers 1/second and count/second differ *)
+Theorem C05_hash_respects_eq_refuted :
+  ∃ a b, q_eq as_coded default_reg a (OQty b) = Ok true ∧ phys_eq default_reg a b
+         ∧ (∃ x, q_hash as_coded default_reg a = Ok x) ∧ (∃ y, q_hash as_coded default_reg b = Ok y)
+         ∧ hash_agree as_coded default_reg a b = false
+         ∧ both_zero_offset default_reg a b = false ∧ delta_offset_clash default_reg (q_u a) (q_u b) = false.
+Proof.
+  exists (Qn 1 1 "hertz"), (Qn 1 1 "becquerel").
+  split; [vm_compute; reflexivity|]. split; [rewrite <- phys_eqb_spec; vm_compute; reflexivity|].
+  split; [eexists; vm_compute; reflexivity|]. split; [eexists; vm_compute; reflexivity|].
+  conj; vm_compute; reflexivity.
+Qed.
+(** equal root-unit containers (or dimensionless, or the patched hash) ⇒ equal hashes *)
+Theorem C05_hash_respects_eq_guarded qk r ma mb ua ub da db sa oa fa sb ob fb Ba Bb :
+  reg_nz r → rooted r ua da sa oa fa Ba → rooted r ub db sb ob fb Bb →
+  (zero_shortcut_any_unit qk = true → both_zero_offset r (Qty ma ua) (Qty mb ub) = false) →
+  delta_offset_clash r ua ub = false →
+  (hash_on_units qk = true → Ba = Bb ∨ da = ∅) →
+  q_eq qk r (Qty ma ua) (OQty (Qty mb ub)) = Ok true →
+  ∃ h, q_hash qk r (Qty ma ua) = Ok h ∧ q_hash qk r (Qty mb ub) = Ok h.
+Proof. exact (hash_respects_eq qk r ma mb ua ub da db sa oa fa sb ob fb Ba Bb). Qed.
+(** with both proposed patches: no guard besides the delta/offset one *)
+Theorem C05_hash_respects_eq_repaired r ma mb ua ub da db sa oa fa sb ob fb Ba Bb :
+  reg_nz r → rooted r ua da sa oa fa Ba → rooted r ub db sb ob fb Bb → delta_offset_clash r ua ub = false →
+  q_eq repaired r (Qty ma ua) (OQty (Qty mb ub)) = Ok true →
+  ∃ h, q_hash repaired r (Qty ma ua) = Ok h ∧ q_hash repaired r (Qty mb ub) = Ok h.
+Proof.
+  intros Hnz Ha Hb Hc. apply (hash_respects_eq repaired r ma mb ua ub da db sa oa fa sb ob fb Ba Bb Hnz Ha Hb); try assumption; discriminate.
+Qed.
+(** what is hashed: the magnitude in root units, with the root container unless dimensionless *)
+Theorem C05_hash_value qk r m u d s o f B :
+  reg_nz r → rooted r u d s o f B →
+  q_hash qk r (Qty m u) =
+  Ok (let v := mag_map (λ x, (x * s + o) * f)%Qc m in
+      if uc_eqb d ∅ then HNum v else if hash_on_units qk then HUnits v B else HDim v d).
+Proof. exact (q_hash_rooted qk r m u d s o f B). Qed.
+
+(** ** ordering *)
+(** same dimension, positively scaled multiplicative units: the outcome of [compare] is the
+    order of the root-unit magnitudes, == agrees with it, exactly one of <, ==, > holds *)
+Theorem C05_trichotomy qk r x y ua ub d fa fb Ba Bb :
+  reg_nz r → rooted r ua d 1 0 fa Ba → rooted r ub d 1 0 fb Bb →
+  mult_unit r ua d fa → mult_unit r ub d fb → (0 < fa)%Qc → (0 < fb)%Qc →
+  let a := Qty (Fin x) ua in let b := Qty (Fin y) ub in
+  let c := mag_cmp (Fin (x * fa)%Qc) (Fin (y * fb)%Qc) in
+  q_compare r a (OQty b) = Ok c
+  ∧ q_eq qk r a (OQty b) = Ok (ord_eq c)
+  ∧ q_lt r a (OQty b) = Ok (ord_lt c) ∧ q_gt r a (OQty b) = Ok (ord_gt c)
+  ∧ q_le r a (OQty b) = Ok (ord_le c) ∧ q_ge r a (OQty b) = Ok (ord_ge c)
+  ∧ exactly_one (ord_lt c) (ord_eq c) (ord_gt c).
+Proof. exact (trichotomy_mult qk r x y ua ub d fa fb Ba Bb). Qed.
+(** ordering of distinct units of one dimensionality goes through root units, offset units too *)
+Theorem C05_compare_is_root_order r ma mb ua ub d sa oa fa sb ob fb Ba Bb :
+  reg_nz r → rooted r ua d sa oa fa Ba → rooted r ub d sb ob fb Bb → ua ≠ ub →
+  q_compare r (Qty ma ua) (OQty (Qty mb ub)) =
+  Ok (mag_cmp (mag_map (λ x, (x * sa + oa) * fa)%Qc ma) (mag_map (λ x, (x * sb + ob) * fb)%Qc mb)).
+Proof. exact (q_compare_rooted r ma mb ua ub d sa oa fa sb ob fb Ba Bb). Qed.
+(** across dimensions: ordering raises DimensionalityError while == answers False *)
+Theorem C05_cmp_dim_mismatch qk r ma mb ua ub da db la lb :
+  dim_of r ua = Ok da → dim_of r ub = Ok db → da ≠ db →
+  nonmult_list r ua = Ok la → nonmult_list r ub = Ok lb →
+  q_compare r (Qty ma ua) (OQty (Qty mb ub)) = Err EDim
+  ∧ q_eq qk r (Qty ma ua) (OQty (Qty mb ub)) = Ok false.
+Proof. exact (cmp_dim_mismatch qk r ma mb ua ub da db la lb). Qed.
+
+(** ** bare numbers: defined iff the quantity is dimensionless or the number is zero / NaN *)
+Theorem C05_number_comparison_rule r ma n u d f B :
+  reg_nz r → rooted r u d 1 0 f B → mult_unit r u d f →
+  ((∃ c, q_compare r (Qty ma u) (ONum n) = Ok c) ↔ (d = ∅ ∨ zero_or_nan n = true))
+  ∧ (d ≠ ∅ → zero_or_nan n = false → ∀ qk, q_eq qk r (Qty ma u) (ONum n) = Ok false)
+  ∧ (d ≠ ∅ → zero_or_nan n = false → q_compare r (Qty ma u) (ONum n) = Err EValue).
+Proof. exact (number_rule_defined r ma n u d f B). Qed.
+Theorem C05_number_comparison_value qk r ma n u d f B :
+  reg_nz r → rooted r u d 1 0 f B → mult_unit r u d f →
+  q_compare r (Qty ma u) (ONum n) =
+    (if uc_eqb d ∅ then Ok (mag_cmp (mag_map (λ x, x * f)%Qc ma) n)
+     else if zero_or_nan n then Ok (mag_cmp ma n) else Err EValue)
+  ∧ q_eq qk r (Qty ma u) (ONum n) =
+    (if zero_or_nan n then Ok (mag_eqb ma n)
+     else if uc_eqb d ∅ then Ok (mag_eqb (mag_map (λ x, x * f)%Qc ma) n) else Ok false).
+Proof. exact (number_rule qk r ma n u d f B). Qed.
+
+(** ** non-vacuity on the registry regenerated from /repo *)
+Example C05_default_registry_nonzero_scales : reg_nz default_reg.
+Proof. apply reg_nzb_spec. vm_compute. reflexivity. Qed.
+(** inch and centimeter satisfy every hypothesis of the multiplicative theorems, with positive
+    factors 127/5000 and 1/100 to the root unit meter *)
+Example C05_hypotheses_inch_centimeter :
+  (rooted default_reg (U "inch") Dlen 1 0 (mkq 127 5000) (U "meter") ∧ mult_unit default_reg (U "inch") Dlen (mkq 127 5000))
+  ∧ (rooted default_reg (U "centimeter") Dlen 1 0 (mkq 1 100) (U "meter") ∧ mult_unit default_reg (U "centimeter") Dlen (mkq 1 100))
+  ∧ (0 < mkq 127 5000)%Qc ∧ (0 < mkq 1 100)%Qc.
+Proof.
+  split; [|split; [|split; reflexivity]];
+    (apply rooted_mult_check_spec; [exact C05_default_registry_nonzero_scales | vm_compute; reflexivity]).
+Qed.
+(** degree_Celsius is an offset operand [x ↦ x + 273.15] onto kelvin; kelvin and
+    delta_degree_Celsius are multiplicative; percent and radian are dimensionless operands *)
+Example C05_hypotheses_offset_and_dimensionless :
+  rooted default_reg (U "degree_Celsius") Dtemp 1 (mkq 5463 20) 1 (U "kelvin")
+  ∧ (rooted default_reg (U "kelvin") Dtemp 1 0 1 (U "kelvin") ∧ mult_unit default_reg (U "kelvin") Dtemp 1)
+  ∧ (rooted default_reg (U "delta_degree_Celsius") Dtemp 1 0 1 (U "kelvin") ∧ mult_unit default_reg (U "delta_degree_Celsius") Dtemp 1)
+  ∧ (rooted default_reg (U "percent") ∅ 1 0 (mkq 1 100) ∅ ∧ mult_unit default_reg (U "percent") ∅ (mkq 1 100))
+  ∧ (rooted default_reg (U "radian") ∅ 1 0 1 (U "radian") ∧ mult_unit default_reg (U "radian") ∅ 1).
+Proof.
+  split; [apply rooted_offs_check_spec; [exact C05_default_registry_nonzero_scales | vm_compute; reflexivity]|].
+  split; [|split; [|split]];
+    (apply rooted_mult_check_spec; [exact C05_default_registry_nonzero_scales | vm_compute; reflexivity]).
+Qed.
+(** 1 inch == 2.54 cm; 1 inch < 3 cm; 0 degC differs from 0 kelvin physically, equals 273.15 K *)
 Example C05_inch_is_254_cm :
-  q_eq as_coded default_reg (Qty (Fin 1%Qc) {[ "inch" := 1%Qc ]}) (OQty (Qty (Fin (mkq 254 100)) {[ "centimeter" := 1%Qc ]})) = Ok true.
-Proof. vm_compute. reflexivity. Qed.
+  q_eq as_coded default_reg (Qn 1 1 "inch") (OQty (Qn 254 100 "centimeter")) = Ok true
+  ∧ phys_eq default_reg (Qn 1 1 "inch") (Qn 254 100 "centimeter")
+  ∧ q_compare default_reg (Qn 1 1 "inch") (OQty (Qn 3 1 "centimeter")) = Ok OLt
+  ∧ hash_agree as_coded default_reg (Qn 1 1 "inch") (Qn 254 100 "centimeter") = true.
+Proof. conj; try (vm_compute; reflexivity). rewrite <- phys_eqb_spec. vm_compute. reflexivity. Qed.
+Example C05_zero_celsius_is_not_zero_kelvin :
+  ¬ phys_eq default_reg (Qn 0 1 "degree_Celsius") (Qn 0 1 "kelvin")
+  ∧ phys_eq default_reg (Qn 0 1 "degree_Celsius") (Qn 27315 100 "kelvin")
+  ∧ q_eq repaired default_reg (Qn 0 1 "degree_Celsius") (OQty (Qn 0 1 "kelvin")) = Ok false
+  ∧ q_eq repaired default_reg (Qn 0 1 "degree_Celsius") (OQty (Qn 27315 100 "kelvin")) = Ok true
+  ∧ q_eq as_coded default_reg (Qn 5 1 "degree_Celsius") (OQty (Qn 41 1 "degree_Fahrenheit")) = Ok true.
+Proof.
+  split; [rewrite <- phys_eqb_spec; vm_compute; discriminate|].
+  split; [rewrite <- phys_eqb_spec; vm_compute; reflexivity|]. conj; vm_compute; reflexivity.
+Qed.
+(** ordering across dimensions / against numbers on the default registry *)
+Example C05_cross_dimension_and_numbers :
+  q_compare default_reg (Qn 1 1 "meter") (OQty (Qn 1 1 "second")) = Err EDim
+  ∧ q_eq as_coded default_reg (Qn 1 1 "meter") (OQty (Qn 1 1 "second")) = Ok false
+  ∧ q_compare default_reg (Qn 5 1 "meter") (ONum (Fin (mkq 3 1))) = Err EValue
+  ∧ q_compare default_reg (Qn 5 1 "meter") (ONum (Fin 0%Qc)) = Ok OGt
+  ∧ q_compare default_reg (Qn 200 1 "percent") (ONum (Fin (mkq 3 1))) = Ok OLt
+  ∧ q_eq as_coded default_reg (Qn 200 1 "percent") (ONum (Fin (mkq 2 1))) = Ok true
+  ∧ hash_agree as_coded default_reg (Qn 1 1 "hertz") (Qn 1 1 "becquerel") = false
+  ∧ hash_agree repaired default_reg (Qn 1 1 "hertz") (Qn 1 1 "becquerel") = true.
+Proof. conj; vm_compute; reflexivity. Qed.
